@@ -214,41 +214,18 @@ func ruleExactLength(r *Report) {
 			continue
 		}
 		key := rule + "/" + k + "/length-selection"
-		// returned length = phi(uncompressed param, compressed param) selected by header.compressor != nil
-		ok := false
-		for _, rs := range returnsOf(fn) {
-			ret := rs.Instr.(*ssa.Return)
-			ph, isP := ret.Results[0].(*ssa.Phi)
-			if !isP || len(ph.Edges) != 2 {
-				continue
+		// returned length = the compressed parameter exactly where header.compressor != nil, the uncompressed one
+		// otherwise — as a phi, as two returns, or through a helper of the package that does the same
+		var un, co *ssa.Parameter
+		for _, pa := range fn.Params {
+			if refName(pa) == "payloadSizeUncompressed" {
+				un = pa
 			}
-			var un, co *ssa.Parameter
-			for _, pa := range fn.Params {
-				if refName(pa) == "payloadSizeUncompressed" {
-					un = pa
-				}
-				if refName(pa) == "payloadSizeCompressed" {
-					co = pa
-				}
-			}
-			// the edge carrying `compressed` comes from the block on the non-nil side of compressor != nil
-			for i, e := range ph.Edges {
-				pred := ph.Block().Preds[i]
-				if e == ssa.Value(co) {
-					// pred must be reachable only via the non-nil edge of a nil test on field compressor
-					for _, b := range liveBlocks(fn) {
-						if v, _, nonNil, okT := nilTest(b); okT {
-							if _, f, _, okF := loadOfField(v); okF && f == "compressor" && (nonNil == pred) {
-								other := ph.Edges[1-i]
-								if other == ssa.Value(un) {
-									ok = true
-								}
-							}
-						}
-					}
-				}
+			if refName(pa) == "payloadSizeCompressed" {
+				co = pa
 			}
 		}
+		ok := un != nil && co != nil && selectsStoredLength(fn, un, co, 0)
 		if ok {
 			r.OK(rule, key, fn.Pos(), "expected length = compressed with compressor, uncompressed without")
 		} else {
@@ -360,6 +337,34 @@ func ruleOffsetAccounting(r *Report) {
 		nStores++
 		key := ef0uniq(rule + "/recordio.FileWriter.Write/advance")
 		at := atoms(st.Val)
+		// `currentOffset += n` reads the field again: that is the offset before the record as long as no store to the
+		// field can have happened before that read
+		for i, a := range at {
+			u, isU := a.(*ssa.UnOp)
+			if !isU || !isCur(u) || a == prev {
+				continue
+			}
+			var at0 *Site
+			eachInstr(fn, func(x Site) {
+				if x.Instr == ssa.Instruction(u) {
+					xx := x
+					at0 = &xx
+				}
+			})
+			clean := at0 != nil
+			eachInstr(fn, func(x Site) {
+				st2, isS := x.Instr.(*ssa.Store)
+				if !isS || !clean {
+					return
+				}
+				if t, f, _, ok := fieldAddrName(st2.Addr); ok && t == "recordio.FileWriter" && f == "currentOffset" && reachableFromSite(x, *at0) {
+					clean = false
+				}
+			})
+			if clean {
+				at[i] = prev
+			}
+		}
 		afterPayload := precedes(pay[0], s)
 		switch {
 		case afterPayload && same(at, prev, hN, pN):
@@ -1116,4 +1121,110 @@ func ruleDecompressedLength(r *Report) {
 			}
 		}
 	}
+}
+
+// selectsStoredLength: the first result of fn is co on the paths where the file header has a compressor and un on the
+// others.
+func selectsStoredLength(fn *ssa.Function, un, co *ssa.Parameter, depth int) bool {
+	if fn == nil || fn.Blocks == nil || depth > 2 {
+		return false
+	}
+	// the non-nil / nil sides of tests of the compressor field
+	var nonNilTo, nilTo []*ssa.BasicBlock
+	for _, b := range liveBlocks(fn) {
+		if v, nilS, nonNil, okT := nilTest(b); okT {
+			if _, f, _, okF := loadOfField(v); okF && f == "compressor" {
+				nonNilTo, nilTo = append(nonNilTo, nonNil), append(nilTo, nilS)
+			}
+		}
+	}
+	under := func(b *ssa.BasicBlock, tos []*ssa.BasicBlock) bool {
+		for _, t := range tos {
+			if t == b || dominates(t, b) {
+				return true
+			}
+		}
+		return false
+	}
+	sawCo, sawUn := false, false
+	for _, rs := range returnsOf(fn) {
+		ret := rs.Instr.(*ssa.Return)
+		if len(ret.Results) == 0 {
+			return false
+		}
+		v := ret.Results[0]
+		switch x := v.(type) {
+		case *ssa.Phi:
+			for i, e := range x.Edges {
+				pred := x.Block().Preds[i]
+				switch {
+				case e == ssa.Value(co) && under(pred, nonNilTo):
+					sawCo = true
+				case e == ssa.Value(un) && !under(pred, nonNilTo):
+					sawUn = true
+				default:
+					return false
+				}
+			}
+		case *ssa.Parameter:
+			switch {
+			case x == co && under(rs.Block, nonNilTo):
+				sawCo = true
+			case x == un && !under(rs.Block, nonNilTo):
+				sawUn = true
+			default:
+				return false
+			}
+		case *ssa.Call:
+			sc := x.Call.StaticCallee()
+			if sc == nil || !inModule(sc) {
+				return false
+			}
+			var gu, gc *ssa.Parameter
+			for i, a := range x.Call.Args {
+				if i >= len(sc.Params) {
+					break
+				}
+				if a == ssa.Value(un) {
+					gu = sc.Params[i]
+				}
+				if a == ssa.Value(co) {
+					gc = sc.Params[i]
+				}
+			}
+			if gu == nil || gc == nil || !selectsStoredLength(sc, gu, gc, depth+1) {
+				return false
+			}
+			sawCo, sawUn = true, true
+		case *ssa.Extract:
+			c, isC := x.Tuple.(*ssa.Call)
+			if !isC || x.Index != 0 {
+				return false
+			}
+			sc := c.Call.StaticCallee()
+			if sc == nil || !inModule(sc) {
+				return false
+			}
+			var gu, gc *ssa.Parameter
+			for i, a := range c.Call.Args {
+				if i >= len(sc.Params) {
+					break
+				}
+				if a == ssa.Value(un) {
+					gu = sc.Params[i]
+				}
+				if a == ssa.Value(co) {
+					gc = sc.Params[i]
+				}
+			}
+			if gu == nil || gc == nil || !selectsStoredLength(sc, gu, gc, depth+1) {
+				return false
+			}
+			sawCo, sawUn = true, true
+		default:
+			return false
+		}
+	}
+	_ = nilTo
+	return sawCo && sawUn
 }
